@@ -47,8 +47,17 @@
 (* WellTyped / Signature are computed by constraint propagation: every     *)
 (* rule is swept (expected types pushed down, found types pulled up,       *)
 (* variables and columns only ever refined by Meet) until nothing changes;  *)
-(* a Meet that fails is a clash.  Deviations (dev) exist only to name the  *)
-(* cause of a disagreement precisely; the property is dev = {}.            *)
+(* a Meet that fails is a clash.  A rule with `|` groups is typed as its   *)
+(* disjunctive normal form (one set of variables per choice of             *)
+(* alternatives).                                                          *)
+(*                                                                         *)
+(* Deviations (dev) exist only to name the cause of a disagreement         *)
+(* precisely; the property is dev = {}:                                    *)
+(*   neq_untyped           `!=` puts no constraint on its operands and     *)
+(*                         says nothing about its result                   *)
+(*   if_cond_untyped       the condition of if-then-else may have any type *)
+(*   closed_records_widen  two closed records one of which has all the     *)
+(*                         fields of the other meet in the wider one       *)
 (***************************************************************************)
 EXTENDS LSem
 
